@@ -8,7 +8,7 @@ findParamLen, findParamLenForLastSegment, findGreedyParamLen, CheckConstraint, R
 RemoveEscapeChar, GetTrimmedParam, the findNext* helpers), /repo/router.go (register, Route.match),
 /repo/ctx.go (configDependentPaths, Params).
 
-The model follows the code *after* the two `fix:` commits recorded in known/C02.json:
+The model follows the code *after* the `fix:` commits recorded in known/C02.json and known/C03.json:
   * Route.match / RoutePatternMatch: a route that declares parameters matches only through
     `getMatch` (no literal / prefix fallback);
   * findParamLen: the "no slash inside a non-greedy parameter" rule also in the one-byte-delimiter
@@ -287,6 +287,13 @@ def markLast : List Seg → List Seg
   | [s] => [{ s with isLast := true }]
   | s :: rest => s :: markLast rest
 
+/-- The `comparePart` a constant hands to the parameters before it: the constant without its
+    trailing slashes when it is longer than one byte – but one slash is kept for a constant made of
+    slashes only (commit "a parameter followed by a constant of slashes only ends at the first
+    slash"). -/
+def cmpOfConst (c : Bytes) : Bytes :=
+  if c.length > 1 then (if (trimRight c SLASH).isEmpty then [SLASH] else trimRight c SLASH) else c
+
 /-- `addParameterMetaInfo`, backward loop: every parameter gets the (trailing-slash-trimmed, if
     longer than one byte) constant of the nearest following constant segment as `ComparePart`.
     Returns the list and the `comparePart` variable's value at its head. -/
@@ -295,7 +302,7 @@ def setCompareParts : List Seg → List Seg × Bytes
   | s :: rest =>
     let (rest', cp) := setCompareParts rest
     if s.isParam then ({ s with comparePart := removeEscapeChar cp } :: rest', cp)
-    else (s :: rest', if s.const.length > 1 then trimRight s.const SLASH else s.const)
+    else (s :: rest', cmpOfConst s.const)
 
 /-- Σ `strings.Count(segs[j].Const, cp)` over the constant segments `j`. -/
 def partCountOf (cp : Bytes) : List Seg → Nat
@@ -519,7 +526,7 @@ def register (cfg : Config) (use : Bool) (pattern : Bytes) : Option Route :=
   match parseRoute raw, parseRoute pretty with
   | some pr, some pp =>
     some { pathRaw := raw, path := clean, params := pr.params, parser := pp, use := use,
-           star := clean == [SLASH, STAR], root := clean == [SLASH] }
+           star := pretty == [SLASH, STAR], root := clean == [SLASH] }
   | _, _ => none
 
 def hexNibble (c : Nat) : Option Nat :=
@@ -595,13 +602,17 @@ def paramsLookup (cfg : Config) (names : List Bytes) (vals : List Bytes) (key : 
 def routePatternMatch (chk : Constraint → Bytes → Bool) (cfg : Config) (path pattern : Bytes) : Option Bool :=
   let path := if path.isEmpty then [SLASH] else path
   let pretty := prettyPattern cfg pattern
-  let path := if !cfg.caseSensitive then toLower path else path
+  -- the path is normalised as `configDependentPaths` normalises a request path: values are cut
+  -- from `path`, the decision is taken on `det`
+  let path := if cfg.unescapePath then unquote path else path
+  let det := if !cfg.caseSensitive then toLower path else path
+  let det := if !cfg.strictRouting && det.length > 1 then trimRight det SLASH else det
   match parseRoute pretty with
   | none => none
   | some pp =>
-    if pretty == [SLASH] && path == [SLASH] then some true
+    if pretty == [SLASH] && det == [SLASH] then some true
     else if pretty == [SLASH, STAR] then some true
-    else if pp.params.length > 0 then some (getMatch chk pp.segs path path false).isSome
-    else some (removeEscapeChar pretty == path)
+    else if pp.params.length > 0 then some (getMatch chk pp.segs det path false).isSome
+    else some (removeEscapeChar pretty == det)
 
 end C02
